@@ -945,6 +945,10 @@ class Node(object):
         if type(newChild) == str:
             newChild = self.ownerDocument.createTextNode(newChild)
         if newChild.nodeType == Node.DOCUMENT_FRAGMENT_NODE:
+            # Resolve a negative position once, as list.insert does, so
+            # that the items of the fragment stay together and in order
+            if i < 0:
+                i = max(i + len(self), 0)
             for item in newChild:
                 self.insert(i, item, setParent=setParent)
                 i += 1
